@@ -72,6 +72,25 @@ pub fn random_syms(r: &mut Rng, t: i32, tx: i32) -> Syms {
             }
         }
     }
+    // Z profiles: every Z of a (or of a and b) is the greatest / the least id (an infinity in every other trace file)
+    if stores_z(t) {
+        let zp = r.below(6);
+        if zp < 3 {
+            let v = if zp == 1 { IDMIN } else { IDMAX };
+            for part in s.a.parts.iter_mut() {
+                for p in part.iter_mut() {
+                    p[2] = v;
+                }
+            }
+            if zp == 2 {
+                for part in s.b.parts.iter_mut() {
+                    for p in part.iter_mut() {
+                        p[2] = v;
+                    }
+                }
+            }
+        }
+    }
     s
 }
 
@@ -199,6 +218,30 @@ pub fn run_history_on<T: std::io::Write + std::io::Seek>(
                 e["flushedShx"] = json!(o1.flushed.1);
                 tr.emit(e);
             }
+            'X' => {
+                // consumption by write_shapes([x, x]) on a file of another type: refused at its first shape, and the
+                // writer, consumed by the call, is dropped inside it
+                let wr = w.take().unwrap();
+                let tx = syms.x.t;
+                let r = guarded(|| {
+                    for_type!(tx, S, {
+                        let v: Vec<S> = vec![S::try_from(clone_shape(&sx)).ok().unwrap(), S::try_from(clone_shape(&sx)).ok().unwrap()];
+                        wr.write_shapes(&v)
+                    })
+                });
+                let mut e = write_res(r);
+                let (ps, px) = plain_run(&accepted, with_shx);
+                e["ev"] = json!("consumex");
+                e["tx"] = json!(tx);
+                let o1 = observe();
+                e["shp"] = jbytes(&o1.shp);
+                e["shx"] = jbytes(&o1.shx);
+                e["flushedShp"] = json!(o1.flushed.0);
+                e["flushedShx"] = json!(o1.flushed.1);
+                e["plainShp"] = jbytes(&ps);
+                e["plainShx"] = jbytes(&px);
+                tr.emit(e);
+            }
             'D' | 'W' | 'U' => {
                 let wr = w.take().unwrap();
                 let mut res = json!({"res": "ok"});
@@ -306,6 +349,7 @@ pub fn run(a: &Args) {
         let mut r = Rng::new(seed.wrapping_mul(7919).wrapping_add(ch as u64));
         // rank=1: ranked special doubles (+-inf, +-MAX, ...) for X/Y in every other file (C05)
         let c = Conc::new(&mut r, !(a.has("rank") && ch % 2 == 1));
+        let c = if ch % 2 == 0 { c.force_inf() } else { c };
         let mut meta = c.meta();
         meta["prop"] = json!(prop);
         meta["seed"] = json!(seed);
@@ -334,8 +378,12 @@ pub fn run(a: &Args) {
         for tx in &xs {
             let syms = random_syms(&mut r, t, *tx);
             for h in all_hists(&['a', 'b', 'x', 'F'], n) {
-                for ending in ["D", "FD", "W", "U"] {
+                for ending in ["D", "FD", "W", "U", "X"] {
                     for ws in [true, false] {
+                        // X (a refused consuming bulk write) needs a file of type t: the first write is a or b
+                        if ending == "X" && !matches!(h.chars().find(|c| *c != 'F'), Some('a') | Some('b')) {
+                            continue;
+                        }
                         if all_x && ending != "D" && *tx != xs[0] {
                             continue;
                         }
@@ -370,11 +418,26 @@ pub fn run(a: &Args) {
                 }
             }
         }
+        // 2c. destinations that accept only a few bytes per call (legal for Write): the files are the same
+        {
+            let syms = random_syms(&mut r, t, xs[0]);
+            for (h, chunk) in [("abD", 1usize), ("aFbD", 3), ("abFD", 7), ("aXD", 2), ("abU", 5)] {
+                let h = h.replace('X', "x");
+                let i = k % chunks;
+                k += 1;
+                distinct.insert((t, true, format!("short{}:{}", chunk, h)));
+                run_history(&mut traces[i], &concs[i], t, true, &h, &syms, &prop, Some(vec![chunk]));
+            }
+        }
         // 3. long random histories
         for _ in 0..nrandom {
             let len = 5 + r.below(26);
             let mut h: String = (0..len).map(|_| *r.pick(&['a', 'b', 'a', 'b', 'x', 'F', 'F'])).collect();
-            h.push_str(*r.pick(&["D", "FD", "W", "U", "FU"]));
+            h.push_str(*r.pick(&["D", "FD", "W", "U", "FU", "X", "X"]));
+            if h.ends_with('X') && !matches!(h.chars().find(|c| *c != 'F'), Some('a') | Some('b')) {
+                h.pop();
+                h.push('D');
+            }
             if h.ends_with('W') && h.chars().find(|c| *c != 'F') == Some('x') {
                 h.pop();
                 h.push('D');
